@@ -140,3 +140,6 @@ def run(chk):
     chk.guard("R1", lambda: raw_vector_rule(chk, "R1"))
     chk.guard("R2", lambda: r2(chk))
     chk.guard("R3", lambda: r3(chk))
+    from .c05 import ACCESSORS, PREDICATES, import_lookup_contracts
+    chk.guard("R4", lambda: import_lookup_contracts(chk, "R4", [a for _i, a in ACCESSORS + PREDICATES], with_chain=False,
+                                                    desc="every lookup that takes a counterpart type prefers the instruction dedicated to THAT type and otherwise only accepts a default one (never one dedicated to another counterpart)"))
